@@ -14,13 +14,18 @@
    Lookup, Remove and Length are local to its bucket lists, their counters and its metadata hash,
    and two filters with different 16-letter base keys own disjoint keys
    (C19_cuckoo_filters_do_not_interfere); Top-K's Insert and Values are local to its sketch rows
-   and its sorted set. So all five kinds are covered by theorems for their updates and queries;
-   creation, import under new keys and re-attachment are decided by correspondence: 2-8 live
-   structures of mixed kinds share one miniredis, their histories are interleaved, each
-   structure's answers are diffed against its model run alone on an empty store, and a monitor
-   checks that a structure's answers change only through operations on its own handles. *)
+   and its sorted set. So all five kinds are covered by theorems for their updates and queries.
+   The other half - what the OTHER structures may do meanwhile - needs less: a foreign call may
+   read anything as long as it writes outside the first structure's keys
+   (C19_non_interference_foreign), and creation, import (under any keys) and re-attachment of all
+   five kinds are proved to write only the keys of the structure they create or attach to
+   (C19_*_writes_own_keys). What remains assumed is that freshly generated base keys differ from
+   all live ones; the harness checks that on every run, runs 2-8 live structures of mixed kinds
+   in one miniredis with interleaved histories, diffs each structure's answers against its model
+   run alone on an empty store, and a monitor checks that a structure's answers change only
+   through operations on its own handles. *)
 From GX.Model Require Import Base Redis RedisCMS RedisHLL RedisBloom RedisCuckoo Heap TopK RedisTopK.
-From GX.Proofs Require Import ListLemmas RedisProofs FrameProofs CuckooFrame TopKFrame.
+From GX.Proofs Require Import ListLemmas RedisProofs FrameProofs CuckooFrame TopKFrame FrameAll.
 
 Theorem C19_decimal_injective : forall a b, dec a = dec b -> a = b.
 Proof. exact dec_injective. Qed.
@@ -111,6 +116,58 @@ Proof. exact tk_insert_local. Qed.
 Theorem C19_topk_values_local : forall t, local (Ktk t) (op_tk_values t).
 Proof. exact tk_values_local. Qed.
 
+(* the other half: foreign calls only have to write elsewhere *)
+Theorem C19_non_interference_foreign : forall (O : Type) (K1 : keyset) (prog : list (step O)),
+  Forall (step_ok O K1) prog ->
+  forall s s', agree K1 s s' -> run_mixed' O s prog = run_alone' O s' prog.
+Proof. exact non_interference_foreign. Qed.
+Theorem C19_confined_calls_are_foreign_steps : forall (O : Type) (K1 K2 : keyset) (g : store -> store),
+  (forall k, K1 k -> K2 k -> False) -> writes_only K2 g -> step_ok O K1 (Foreign O g).
+Proof. exact foreign_of_writes_only. Qed.
+Theorem C19_local_calls_write_own_keys : forall (O : Type) (K : keyset) (f : op O),
+  local K f -> writes_only K (fun s => fst (f s)).
+Proof. exact @local_writes_only. Qed.
+
+(* creation, import and re-attachment write only the keys of their own structure *)
+Theorem C19_cms_new_writes_own_keys : forall s rows cols key meta k, ~ Kcms_all key meta k ->
+  sget (snd (rcms_new s rows cols key meta)) k = sget s k.
+Proof. exact cms_new_writes. Qed.
+Theorem C19_cms_import_writes_own_keys : forall key m s k, ~ Kcms key k -> sget (rcms_set_matrix s key m) k = sget s k.
+Proof. exact set_matrix_writes. Qed.
+Theorem C19_hll_new_writes_own_keys : forall s m alpha key meta k, ~ Kpair key meta k ->
+  sget (snd (rhll_new s m alpha key meta)) k = sget s k.
+Proof. exact hll_new_writes. Qed.
+Theorem C19_hll_import_writes_own_keys : forall s h m p alpha regs key k, ~ Kpair key (rh_meta h) k ->
+  sget (snd (rhll_import s h m p alpha regs key)) k = sget s k.
+Proof. exact hll_import_writes. Qed.
+Theorem C19_bloom_new_writes_own_keys : forall s size0 k0 key meta k, ~ Kpair key meta k ->
+  sget (snd (rbloom_new s size0 k0 key meta)) k = sget s k.
+Proof. exact bloom_new_writes. Qed.
+Theorem C19_bloom_attach_writes_junk_only : forall s meta junk k, k <> junk ->
+  sget (snd (rbloom_attach s meta junk)) k = sget s k.
+Proof. exact bloom_attach_writes. Qed.
+Theorem C19_bloom_import_writes_own_keys : forall s h m k0 raw k, ~ Kpair (rb_key h) (rb_meta h) k ->
+  sget (snd (rbloom_import s h m k0 raw)) k = sget s k.
+Proof. exact bloom_import_writes. Qed.
+Theorem C19_cuckoo_new_writes_own_keys : forall s size bsize fpl retries key meta k,
+  ~ Kck (mkRck size bsize fpl retries key meta) k ->
+  sget (snd (rck_new s size bsize fpl retries key meta)) k = sget s k.
+Proof. exact ck_new_writes. Qed.
+Theorem C19_cuckoo_attach_writes_own_keys : forall s meta k, ~ Kck (fst (rck_attach s meta)) k ->
+  sget (snd (rck_attach s meta)) k = sget s k.
+Proof. exact ck_attach_writes. Qed.
+Theorem C19_cuckoo_import_writes_own_keys : forall s size bsize fpl retries len bks key meta k,
+  ~ Kck (mkRck size bsize fpl retries key meta) k ->
+  sget (snd (rck_import s size bsize fpl retries len bks key meta)) k = sget s k.
+Proof. exact ck_import_writes. Qed.
+Theorem C19_topk_new_writes_own_keys : forall s k0 rows cols er acc ertxt acctxt skey smeta hkey meta k,
+  ~ Ktk_all skey smeta hkey meta k ->
+  sget (snd (rtopk_new s k0 rows cols er acc ertxt acctxt skey smeta hkey meta)) k = sget s k.
+Proof. exact topk_new_writes. Qed.
+Theorem C19_topk_import_heap_writes_own_key : forall s hkey entries k, k <> hkey ->
+  sget (rtopk_import_heap s hkey entries) k = sget s k.
+Proof. exact topk_import_heap_writes. Qed.
+
 Print Assumptions C19_decimal_injective.
 Print Assumptions C19_row_key_injective.
 Print Assumptions C19_lset_frame.
@@ -122,3 +179,6 @@ Print Assumptions C19_bloom_insert_local.
 Print Assumptions C19_cuckoo_insert_local.
 Print Assumptions C19_cuckoo_filters_do_not_interfere.
 Print Assumptions C19_topk_insert_local.
+Print Assumptions C19_non_interference_foreign.
+Print Assumptions C19_cuckoo_import_writes_own_keys.
+Print Assumptions C19_topk_new_writes_own_keys.
